@@ -469,8 +469,17 @@ func (g *gen) genRule(h PredInfo, k int) Rule {
 			}
 			q := lower[r.Choose(len(lower), "gen.neg.pred")]
 			var args []Expr
+			hasSet := false
 			for _, t := range q.Cols {
-				if o.NegWildcard && r.OneIn(4, "gen.neg.wild") {
+				hasSet = hasSet || t.IsSet()
+			}
+			if hasSet && !o.NegWildcard {
+				// a set-valued column can only be matched by a wildcard: the order
+				// of a collected list is unspecified, so no list constant equals it reliably
+				continue
+			}
+			for _, t := range q.Cols {
+				if t.IsSet() || o.NegWildcard && r.OneIn(4, "gen.neg.wild") {
 					args = append(args, V("_"))
 				} else {
 					args = append(args, g.boundArg(env, t))
